@@ -57,6 +57,21 @@ HOSTILE_ENV = {"NETCONAN_SALT": "saltFromEnvironment", "NETCONAN_INPUT": "/nonex
                "NETCONAN_LOG_LEVEL": "DEBUG", "SALT": "saltFromEnvironment", "COLUMNS": "40"}
 
 
+def hostile_home():
+    """A home directory holding files a tool might pick up as per-user defaults.  Nothing in netconan's contract
+    reads them: options come from the command line and from the file named with -c."""
+    home = os.path.join(VERIF, ".work", "home")
+    body = "salt = saltFromHomeConfig\nsensitive-words = hostname,interface\npreserve-host-bits = 3\nanonymize-passwords = true\n"
+    for rel in (".netconan.cfg", ".netconan", ".netconanrc", "netconan.cfg", ".netconan.ini", ".config/netconan/config",
+                ".config/netconan.cfg", ".config/netconan/netconan.cfg"):
+        p = os.path.join(home, rel)
+        if not os.path.exists(p):
+            os.makedirs(os.path.dirname(p), exist_ok=True)
+            with open(p, "w") as f:
+                f.write(body)
+    return home
+
+
 def child_env(hashseed=None, extra=None):
     """Environment for child interpreters that must run the tree under test.  Besides the hash seed, the
     interpreter's optimisation level (-O / -OO strip assert statements) rotates with it."""
@@ -73,6 +88,8 @@ def child_env(hashseed=None, extra=None):
             env.pop("PYTHONOPTIMIZE", None)
         if int(hashseed) % 2:
             env.update(HOSTILE_ENV)
+            env["HOME"] = hostile_home()
+            env["XDG_CONFIG_HOME"] = os.path.join(env["HOME"], ".config")
     env.pop("PYTHONSTARTUP", None)
     if extra:
         env.update(extra)
